@@ -5,22 +5,22 @@ V = os.path.dirname(os.path.dirname(os.path.abspath(__file__)))
 
 CHECKS = {
  "C02": dict(level="model_checking", design="5 C02, 4.1",
-   text="TLC checks clauses R1-R7 of L4RouterAbs on every state of the code-shaped model of RouteList.Compile (all route lists of a bounded grammar x all streams x all read schedules), every terminal behaviour is replayed on the real Provision+Compile with scripted matchers/handlers and the real subroute/not modules and must be identical to the TLC-checked prediction or is judged individually by TLC; seeded random larger instances recorded from the real code are validated by TLC against the same operators.",
+   text="TLC checks clauses R1-R7 of L4RouterAbs on every state of the code-shaped model of RouteList.Compile (all route lists of a bounded grammar x all streams x all read schedules), every terminal behaviour is replayed on the real Provision+Compile with scripted matchers/handlers and the real subroute/not modules and must be identical to the TLC-checked prediction or is judged individually by TLC; every replay runs a second identical connection through the same compiled route list (judged on its own when it differs); seeded random larger instances recorded from the real code are validated by TLC against the same operators.",
    note="trusts TLC, the scripted net.Conn / matchers / handlers of the harness, Caddy's module loader; matchers are abstracted as monotone threshold/position matchers",
    technique="TLA+ model of the routing loop checked with TLC; behaviour replay + trace validation against the real router"),
 
  "C05": dict(level="model_checking", design="5 C05, 4.1, 4.2",
-   text="Untimed half: clauses D1-D3/B1-B2/R4 (deadline armed for every matching read, cleared before handlers, abort only with cause, buffer bound, nothing after abort) checked by TLC on every state of the router model and on all replayed/recorded real histories. Timed half: TLC checks NotEarly/NotLate on the timed deadline model and validates, against clauses TE/TL/TC/TB/TH, timed traces of the real Server.handle (loopback TCP) and servePacket (loopback UDP) for a TLC-enumerated grid of send schedules x timeouts (40..1500 ms) x wall-clock phases.",
+   text="Untimed half: clauses D1-D3/B1-B3/R4/R5a/R5b (deadline armed for every matching read, cleared before handlers, abort only with cause, buffer bound incl. the largest matching buffer any matcher saw, nothing after abort, no fallback or silent return while a route is undecided) checked by TLC on every state of the router model and on all replayed/recorded real histories. Timed half: TLC checks NotEarly/NotLate on the timed deadline model and validates, against clauses TE/TL/TC/TB/TH, timed traces of the real Server.handle (loopback TCP) and servePacket (loopback UDP) for a TLC-enumerated grid of send schedules x timeouts (40..1500 ms) x wall-clock phases.",
    note="scaled real time with one-sided tolerances (2 ms early, max(250 ms,25%) late); disturbed runs are repeated, then inconclusive; trusts Go timers and the loopback stack",
    technique="TLA+ router + timed deadline models checked with TLC; timed trace validation of the real TCP/UDP matching phase"),
  "C09": dict(level="model_checking", design="5 C09, 4.3",
-   text="TLC checks NoCrash/NoStaleDelete/OwnClientOnly/InOrder on the code-shaped model of servePacket<->packetConn (all interleavings of 2 clients, 5 datagrams, 4 associations, scaled channel capacities) and, as a vacuity self-test, that the same invariants fail on the pinned-commit protocol. The real loop runs behind a scripted PacketConn in a child process for a TLC-enumerated grid of bursts (clients x datagrams x handler read counts x sizes x reader buffer sizes x pacing); a panic is a violation; recorded histories are validated by TLC against clauses U0-U4 of L4UdpAbs.",
-   note="free-running goroutines (no forced interleavings yet); the 30 s idle expiry path is covered by the model only; event order is recording order under one lock",
+   text="TLC checks NoCrash/NoStaleDelete/OwnClientOnly/InOrder on the code-shaped model of servePacket<->packetConn (all interleavings of 2 clients, 5 datagrams, 4 associations, scaled channel capacities) and, as a vacuity self-test, that the same invariants fail on the pinned-commit protocol. The real loop runs behind a scripted PacketConn in a child process for a TLC-enumerated grid of bursts (clients x datagrams x handler read counts x sizes x reader buffer sizes x pacing); a panic is a violation; recorded histories are validated by TLC against clauses U0-U4 of L4UdpAbs; a gate-scheduled close race (hooks) and a brute-force stress of concurrent Close calls on one virtual connection complete the runs.",
+   note="one interleaving is forced through gates, the others are free-running; the 30 s idle expiry path is covered by the model only; event order is recording order under one lock",
    technique="TLA+ model of the UDP demultiplexing goroutines checked with TLC; trace validation of the real servePacket loop"),
 
  "C13": dict(level="model_checking", design="5 C13, 4.4",
-   text="TLC checks AtMostOnce/OnlyFallThrough/NotClosedBeforeDelivery/ClosedWhenDone/NeverBoth/NoReuseWhileReferenced and the liveness property Drain (under fairness) on the code-shaped model of listener.go loop/handle/pipeConnection/Accept/Close with the buffer pool, for three connection mixes and channel capacity 1; the real ListenerWrapper (provisioned from JSON) runs around a scripted listener for a TLC-enumerated grid (connection mixes x consumer fast/slow/absent x GOMAXPROCS x stream length x close instant) and the recorded histories are validated by TLC against clauses L1-L7 of L4ListenerAbs (exactly-once delivery, intact stream from the first unconsumed byte, closure, goroutine leak).",
-   note="scripted listener and connections; free-running goroutines; TLS-terminated fall-through not exercised yet",
+   text="TLC checks AtMostOnce/OnlyFallThrough/NotClosedBeforeDelivery/ClosedWhenDone/NeverBoth/NoReuseWhileReferenced and the liveness property Drain (under fairness) on the code-shaped model of listener.go loop/handle/pipeConnection/Accept/Close with the buffer pool, for three connection mixes and channel capacity 1; the real ListenerWrapper (provisioned from JSON) runs around a scripted listener for a TLC-enumerated grid (connection mixes incl. TLS-terminated fall-through with the real tls handler and connections a terminal handler is still serving when the listener closes x consumer fast/slow/absent x GOMAXPROCS x stream length x close instant) and the recorded histories are validated by TLC against clauses L1-L8 of L4ListenerAbs (exactly-once delivery, intact stream from the first unconsumed byte, closure, goroutine leak).",
+   note="scripted listener and connections (real loopback TCP for the TLS ones); free-running goroutines",
    technique="TLA+ model of the listener-wrapper goroutines and buffer pool checked with TLC (safety + liveness); trace validation of the real ListenerWrapper"),
 
  "C10": dict(level="model_checking", design="5 C10, 4.6",
@@ -29,22 +29,22 @@ CHECKS = {
    technique="TLA+ contract of the selection policies; TLC-enumerated pool states and selection sequences replayed on the real policies; trace validation"),
 
  "C03": dict(level="model_checking", design="5 C03, 4.5",
-   text="TLC checks UpExact/DownOrdered/HalfCloseSeen and the liveness property Cleanup (handler returns, every upstream connection closed, nothing lost when both ends finish gracefully) on the code-shaped model of Handler.proxy (pump, one copier per upstream connection, main) with two upstream connections for every combination of client/upstream half-close, close and reset; the real handler relays between loopback TCP client and upstream servers for a TLC-enumerated grid (who finishes first and how x payload sizes up to 1 MiB x chunkings x 1-2 peers x bytes prefetched into the matching buffer) and TLC judges the observations against clauses P1-P5 of L4ProxyAbs.",
-   note="loopback TCP only (TLS / Unix sockets not exercised); kernel TCP trusted; timing slack 15 s for return, 3 s for closure",
+   text="TLC checks UpExact/DownOrdered/HalfCloseSeen and the liveness property Cleanup (handler returns, every upstream connection closed, nothing lost when both ends finish gracefully) on the code-shaped model of Handler.proxy (pump, one copier per upstream connection, main) with two upstream connections for every combination of client/upstream half-close, close and reset; the real handler relays between loopback TCP client and upstream servers for a TLC-enumerated grid (who finishes first and how x payload sizes up to 1 MiB x chunkings x 1-2 peers x bytes prefetched into the matching buffer x directly / behind a real route with two matching rounds x a dial attempt given up half-way and retried) and TLC judges the observations against clauses P1-P5 of L4ProxyAbs.",
+   note="loopback TCP only (TLS / Unix sockets not exercised); kernel TCP trusted; timing slack 15 s for return, 3 s for closure; the garbage collector is off during the runs so that a finalizer cannot close a leaked socket",
    technique="TLA+ model of the proxy relay goroutines checked with TLC (safety + liveness); trace validation of the real handler over loopback TCP"),
 
  "C11": dict(level="model_checking", design="5 C11, 4.6",
-   text="TLC checks CountExact (failure counter = failures remembered from the last fail_duration), NeverNegative, LimitRespected, ConnsExact and GiveUpOnlyLate on the timed model of Handle/dialPeers/countFailure/tryAgain over all histories of dial failures, outages, recoveries, connection opens/ends (2 peers, 2-3 connections, integer ticks). The real handler runs in scaled real time for a TLC-enumerated grid: failure-window scripts (counters and rotation membership sampled through an accessor, failures observed through hooks), retry runs against refusing peers (attempt spacing, give-up time, last error), connection-limit runs (max_connections and unhealthy_connection_count with loopback upstreams recording who got which connection) and active health checks (peer refusing / accepting); TLC judges the timed traces against clauses W1-W2/R1-R4/L1-L2/A1 of L4HealthAbs.",
+   text="TLC checks CountExact (failure counter = failures remembered from the last fail_duration), NeverNegative, LimitRespected, ConnsExact and GiveUpOnlyLate on the timed model of Handle/dialPeers/countFailure/tryAgain over all histories of dial failures, outages, recoveries, connection opens/ends (2 peers, 2-3 connections, integer ticks). The real handler runs in scaled real time for a TLC-enumerated grid: failure-window scripts (counters and rotation membership sampled through an accessor, failures observed through hooks), retry runs against refusing peers (attempt spacing, give-up time, last error), connection-limit runs (max_connections and unhealthy_connection_count with loopback upstreams recording who got which connection) active health checks (peer refusing / accepting), and a window script with passive and active checks together; TLC judges the timed traces against clauses W1-W2/R1-R4/L1-L2/A1 of L4HealthAbs.",
    note="scaled real time with 45 ms tolerance at window edges; disturbed runs repeated then inconclusive; one peer per upstream in the timed runs",
    technique="timed TLA+ model of health accounting and retries checked with TLC; timed trace validation of the real proxy handler"),
 
  "C16": dict(level="model_checking", design="5 C16, 4.7",
-   text="The reference May(cfg, script) of L4Socks5 (command rule set incl. defaults / case / placeholders, credential filtering with fail-closed empty names, RFC 1928 method selection, RFC 1929 authentication) is enumerated exhaustively by TLC over all configuration x client-script pairs of the bounded grammar (17 640 in the quick tier); every pair is played against the real Socks5Handler (provisioned, Handle on a pipe, loopback target recording outbound connections) and TLC judges each observation: success reply or outbound effect only if May.",
+   text="The reference May(cfg, script) of L4Socks5 (command rule set incl. defaults / case / placeholders, credential filtering with fail-closed empty names, RFC 1928 method selection, RFC 1929 authentication) is enumerated exhaustively by TLC over all configuration x client-script pairs of the bounded grammar (35 280 in the quick tier; each configuration as JSON and through the documented Caddyfile syntax); every pair is played against the real Socks5Handler (provisioned, Handle on a pipe, loopback target recording outbound connections); consecutive sessions through one real Server (legitimate, one-byte, silent client) share pooled matching buffers and TLC judges each observation: success reply or outbound effect only if May.",
    note="scripted client bytes; outbound effect observed as a TCP accept on the harness target or a success reply to ASSOCIATE; only the 'only' direction is judged",
    technique="TLA+ reference of SOCKS5 negotiation/authorisation; exhaustive TLC enumeration replayed on the real handler; trace validation"),
 
  "C17": dict(level="model_checking", design="5 C17, 4.7",
-   text="TLC checks BoundLocal/BoundTotal on the token-bucket model of throttledConn.Read (wait for the batch on both limiters, then one underlying read) for 2 connections sharing a total limiter, and as a self-test that the bounds fail when the read precedes the wait. The real handler runs over instant-data connections for a TLC-enumerated grid (rate x burst x total limit none/equal/only x latency x reader buffer x 1-4 concurrent connections); every underlying read is stamped when served and TLC judges the timed traces against G1 (per connection), G2 (summed over the handler), G3 (latency) and G4 (stream intact) of L4ThrottleAbs.",
+   text="TLC checks BoundLocal/BoundTotal on the token-bucket model of throttledConn.Read (wait for the batch on both limiters, then one underlying read) for 2 connections sharing a total limiter, and as a self-test that the bounds fail when the read precedes the wait. The real handler runs over instant-data connections for a TLC-enumerated grid (rate x burst x total limit none/equal/only/no limit at all x latency x reader buffer x 1-4 concurrent connections; plus UDP virtual connections through the real servePacket loop with datagrams larger than the burst); every underlying read is stamped when served and TLC judges the timed traces against G1 (per connection), G2 (summed over the handler), G3 (latency) and G4 (stream intact) of L4ThrottleAbs.",
    note="real time, ms resolution with 1 ms rounding slack; time zero is the instant the reader issued its first read; golang.org/x/time/rate trusted",
    technique="TLA+ token-bucket model checked with TLC; timed trace validation of the real throttle handler"),
 
@@ -54,17 +54,17 @@ CHECKS = {
    technique="TLA+ model of the record/rewind buffer and router with the shipped wrapping handlers, checked with TLC; behaviour replay + trace validation"),
 
  "C12": dict(level="model_checking", design="5 C12, 4.7",
-   text="The reference RecvExpect/SendExpect of L4ProxyProto (which bytes are stripped, which addresses later matchers, handlers and placeholders must see; which header each upstream must receive first) is evaluated by TLC over every case of a bounded grammar (version x family incl. v1 UNKNOWN and v2 LOCAL x boundary addresses x allow-list relation x segmentation x bytes prefetched by an earlier matcher x payload; send: version x direct/behind a receiving handler x peers x payload). Each case is played against the real proxy_protocol handler inside a real route list (followed by a real remote_ip matcher and a recording handler) or the real proxy handler over loopback TCP, with headers produced and parsed by the harness's own codec, and TLC judges the observations (clauses Q1-Q7).",
+   text="The reference RecvExpect/SendExpect of L4ProxyProto (which bytes are stripped, which addresses later matchers, handlers and placeholders must see; which header each upstream must receive first) is evaluated by TLC over every case of a bounded grammar (version x family incl. v1 UNKNOWN and v2 LOCAL x boundary addresses x allow-list relation incl. IPv6 peers and ranges x segmentation x bytes prefetched by an earlier matcher x payload; send: version x direct/behind a receiving handler x peers x payload). Each case is played against the real proxy_protocol handler inside a real route list (followed by a real remote_ip matcher and a recording handler) or the real proxy handler over loopback TCP, with headers produced and parsed by the harness's own codec, and TLC judges the observations (clauses Q0-Q7).",
    note="v2 TLVs are not generated (the library rejects them); receive cases use a scripted connection",
    technique="TLA+ reference of PROXY protocol receive/send semantics; exhaustive TLC case enumeration replayed on the real handlers; trace validation"),
 
  "C08": dict(level="model_checking", design="5 C08, 4.4",
-   text="Cross-talk: TLC checks NoReuseWhileReferenced on the listener-wrapper / buffer-pool model (and that it fails with the pinned-commit behaviour); the real ListenerWrapper grid (C13's, incl. TLS-terminated hand-off, GOMAXPROCS 1..16, slow and absent consumers) is validated against clause L3 (a consumer reads only its own stream); N connections of four kinds run through ONE provisioned server (shared matchers, throttle total limiter, tee, echo) first alone then all at once, and TLC requires each connection's history (routes run, stream positions read, tee branch) to be identical and its reads to be its own stream in order; every selection policy is used by 8 goroutines at once; valid first messages of the shipped protocol matchers (one matcher instance per route) must be routed by their own route also when all connections run at once (X4). Data races: the same concurrent drivers (connections, listener, UDP bursts, two peers writing to one client) run under the Go race detector and any report with a repository frame is a violation.",
+   text="Cross-talk: TLC checks NoReuseWhileReferenced on the listener-wrapper / buffer-pool model (and that it fails with the pinned-commit behaviour); the real ListenerWrapper grid (C13's, incl. TLS-terminated hand-off, GOMAXPROCS 1..16, slow and absent consumers) is validated against clause L3 (a consumer reads only its own stream); N connections of four kinds run through ONE provisioned server (shared matchers, throttle total limiter, tee, echo) first alone then all at once, and TLC requires each connection's history (routes run, stream positions read, tee branch) to be identical and its reads to be its own stream in order; the connection kinds include a wrapping handler followed by more matching and a real subroute; every selection policy is used by 8 goroutines at once; valid first messages of the shipped protocol matchers (one matcher instance per route) must be routed by their own route also when all connections run at once (X4). Data races: the same concurrent drivers (connections, listener, UDP bursts, two peers writing to one client) run under the Go race detector and any report with a repository frame is a violation.",
    note="the race detector is a monitor attached to the conformance drivers (a TLA+ model cannot observe Go memory-model races) and only sees executed schedules; the shipped protocol matchers (openvpn auth/crypt/crypt2, ssh, http, socks5, regexp, tls) are shared by the concurrent connections",
    technique="TLA+ buffer-pool/listener model checked with TLC; trace validation of concurrent vs. solo executions; Go race detector on the concurrent drivers"),
 
  "C14": dict(level="exploration", design="5 C04/C06/C14, 4.8",
-   text="Per protocol a TLA+ reference predicate Ref(message, filters) transcribed from the wire definition and the documented filter semantics (L4Wire); TLC enumerates abstract first messages over boundary field domains (including values that violate the definition) x filter configurations exhaustively; the harness's own encoders turn them into bytes, the real matcher (provisioned from the enumerated JSON) is evaluated, and TLC judges verdict = Ref on the complete first message (clause V1).",
+   text="Per protocol a TLA+ reference predicate Ref(message, filters) transcribed from the wire definition and the documented filter semantics (L4Wire); TLC enumerates abstract first messages over boundary field domains (including values that violate the definition) x filter configurations exhaustively (16 protocols incl. OpenVPN plain/auth/crypt/crypt2 with keys inline or from files, Winbox, RDP, HTTP/1 and HTTP/2, QUIC); the harness's own encoders turn them into bytes (the OpenVPN encoder must first reproduce packets of a real OpenVPN; QUIC Initials come from a real quic-go client), the real matcher (provisioned from the enumerated JSON) is evaluated, and TLC judges verdict = Ref on the complete first message (clause V1).",
    note="coverage is the enumerated boundary domains, not all inputs; encoders are harness code; regular expressions are limited to pattern shapes restated in TLA+; protocols covered are listed in the evidence (by_proto)",
    technique="TLA+ wire-definition reference predicates; exhaustive TLC vector enumeration evaluated on the real matchers; trace validation"),
  "C06": dict(level="exploration", design="5 C04/C06/C14, 4.8",
@@ -72,17 +72,17 @@ CHECKS = {
    note="stream-oriented matchers only for M1/M2; prefix lengths sampled beyond 96 bytes",
    technique="TLA+ verdict-over-prefix rules; TLC-enumerated vectors evaluated on the real matchers at every prefix; trace validation"),
  "C04": dict(level="exploration", design="5 C04/C06/C14, 4.8",
-   text="Every evaluation of the C14/C06 vectors (well-formed messages, field-boundary corruptions incl. inconsistent length fields, every truncation) runs under recover() with the allocation counter sampled around it, in child processes with a 3 GiB address-space limit; TLC judges: never a panic (A1), never more than 512 KiB allocated by one evaluation (A2); a child killed by the runtime (out of memory) is attributed to the vector it announced.",
+   text="Every evaluation of the C14/C06 vectors (well-formed messages, field-boundary corruptions incl. inconsistent length fields and padding, every truncation) runs under recover() with the allocation counter sampled around it, in child processes with a 3 GiB address-space limit; TLC judges: never a panic (A1), never more than 512 KiB allocated by one evaluation (A2); a child killed by the runtime (out of memory) is attributed to the vector it announced; the protocol-parsing handlers (PROXY protocol grid of C12, SOCKS5 grid of C16) run under recover() too and are judged for panics (Q0/K0).",
    note="grammar-derived boundary inputs, not all byte strings; handlers are covered by their own checks (C12, C16, C07); the QUIC matcher is not covered (DESIGN.md section 6)",
    technique="TLA+ robustness contract over TLC-enumerated boundary vectors evaluated on the real matchers; trace validation"),
 
  "C07": dict(level="exploration", design="5 C07, 4.8",
-   text="TLC enumerates client TLS configurations x sni/alpn matcher configurations (L4TLS); for each a real crypto/tls client produces the ClientHello, the bytes are shown to the real matcher (provisioned from JSON), to the matcher's own parser (in-package accessor) and to a crypto/tls server (GetConfigForClient); TLC judges: server name, ALPN, supported versions, cipher suites, curves equal the server's view (T1-T5), the verdict equals the decision function applied to the server's view (T6), the placeholders equal the hello (T7). Record framing (non-handshake records never match, every proper prefix of a hello stays undecided) is judged on the tls vectors of L4Wire at every prefix.",
+   text="TLC enumerates client TLS configurations (incl. ALPN offers in preference order and hellos without the supported_versions extension) x sni/alpn matcher configurations (L4TLS); for each a real crypto/tls client produces the ClientHello, the bytes are shown to the real matcher (provisioned from JSON), to the matcher's own parser (in-package accessor) and to a crypto/tls server (GetConfigForClient); TLC judges: server name, ALPN, supported versions, cipher suites, curves equal the server's view (T1-T5), the verdict equals the decision function applied to the server's view (T6), the placeholders equal the hello (T7). Record framing (non-handshake records never match, every proper prefix of a hello stays undecided) is judged on the tls vectors of L4Wire at every prefix.",
    note="field-extraction ground truth is crypto/tls; no byte-level mutations beyond truncation and foreign record types",
    technique="TLA+ case space and sni/alpn decision function; TLC-enumerated cases run through a real TLS client, the real matcher and a real TLS server; trace validation"),
 
  "C15": dict(level="exploration", design="5 C15, 4.9",
-   text="Configuration terms of a bounded grammar (L4Config: matchers with options, matcher sets, routes, handler chains incl. proxy options, socks5, nested subroute and tee, 1-2 servers, global-option and listener-wrapper forms, option-order / number-of-blocks printing choices) are enumerated exhaustively by TLC; each term IS the expected JSON; the harness prints it as a Caddyfile following the documented syntax, runs the real adapter twice, compares the adapted JSON with the term, loads it with caddy.Validate (full provisioning) and round-trips the layer4 JSON through the Go structs; TLC judges the five outcomes (F1-F5).",
+   text="Configuration terms of a bounded grammar (L4Config: matchers with options, matcher sets, routes, handler chains incl. proxy options, socks5, nested subroute and tee, tls remote_ip with ! and private_ranges, 1-2 servers, global-option and listener-wrapper forms, option-order / number-of-blocks / upstream-address-form printing choices) are enumerated exhaustively by TLC; each term IS the expected JSON; the harness prints it as a Caddyfile following the documented syntax, runs the real adapter twice, compares the adapted JSON with the term, loads it with caddy.Validate (full provisioning) and round-trips the layer4 JSON through the Go structs; TLC judges the five outcomes (F1-F5).",
    note="TLC is a bounded-exhaustive term generator here, the oracle is term = adapted JSON plus a harness-owned Caddyfile printer; undocumented Caddyfile forms are left out",
    technique="TLA+ configuration-term grammar enumerated by TLC; adapter / loader / round-trip run on every term; trace validation"),
 
